@@ -209,10 +209,10 @@ Proof.
 Qed.
 
 (* ---- Instance.fields() / Instance.alias as a function of the fields as written (anchor: field iteration) ---- *)
-Theorem C20_fields_digest : forall al dial conf l f,
-  In f (digest_fields al dial conf l) ->
-  exists r, In r l /\ r_init r = true /\ digest_field al dial conf r = Some f /\ f_ty f = resolve_field dial conf r /\
-            f_req f = (match r_def r with RNone => true | _ => false end) /\
+Theorem C20_fields_digest : forall al om dial conf l f,
+  In f (digest_fields al om dial conf l) ->
+  exists r, In r l /\ r_init r = true /\ digest_field al om dial conf r = Some f /\ f_ty f = resolve_field dial conf r /\
+            f_req f = (match r_def r with RNone => negb (om && nullable_ty (r_ty r)) | _ => false end) /\
             (f_default f <> None <-> exists v, r_def r = RDefault v).
 Proof. exact digest_fields_spec. Qed.
 Print Assumptions C20_fields_digest.
@@ -220,19 +220,20 @@ Print Assumptions C20_fields_digest.
 (* the new constructs (leaf formats, Enum / Literal, TypedDict with sorted required keys, description, alias resolution,
    init=False) in one run: total, closed, well formed and a round-trip fixed point *)
 Definition ER : list (string * rcls) :=
-  [("Leafy", mkrcls [("u", "cfg_u")] [] []
-      [mkrfld "when" None None (TLeaf "string" (Some "date-time") None) true RNone (Some "when it happened") None None;
-       mkrfld "u" None None (TLeaf "string" (Some "uuid") None) true (RDefault (JStr "0")) None None None;
-       mkrfld "a2" None (Some "ann2") TBool true (RDefault (JBool false)) None None None;
-       mkrfld "hidden" None None TInt false (RDefault (JInt 1)) None None None;
-       mkrfld "e" (Some "") (Some "ann") (TEnum false [JStr "a"; JInt 2]) true RFactory (Some "") None None;
-       mkrfld "l" (Some "meta") (Some "ann") (TEnum true [JInt 0]) true (RDefault (JInt 0)) None None None;
-       mkrfld "td" None None (TTyped ["b"; "a"; "c"] [TInt; TClass "Other"; TStr] [true; true; false]) true RFactory None None None]);
-   ("Other", mkrcls [] [] [] [mkrfld "z" None None TInt true RNone None None None])].
+  [("Leafy", mkrcls [("u", "cfg_u")] (Some true) (Some false) [] []
+      [mkrfld "when" None None (TLeaf "string" (Some "date-time") None) false true RNone (Some "when it happened") None None;
+       mkrfld "u" None None (TLeaf "string" (Some "uuid") None) false true (RDefault (JStr "0")) None None None;
+       mkrfld "a2" None (Some "ann2") TBool false true (RDefault (JBool false)) None None None;
+       mkrfld "opt" None None (TUnion [TInt; TNone]) true true RNone None None None;
+       mkrfld "hidden" None None TInt false false (RDefault (JInt 1)) None None None;
+       mkrfld "e" (Some "") (Some "ann") (TEnum false [JStr "a"; JInt 2]) false true RFactory (Some "") None None;
+       mkrfld "l" (Some "meta") (Some "ann") (TEnum true [JInt 0]) false true (RDefault (JInt 0)) None None None;
+       mkrfld "td" None None (TTyped ["b"; "a"; "c"] [TInt; TClass "Other"; TStr] [true; true; false]) false true RFactory None None None]);
+   ("Other", mkrcls [] None None [] [] [mkrfld "z" None None TInt false true RNone None None None])].
 
 Example C20_new_constructs_nonvacuous :
   keys (match lookup "Leafy" (digest_tab ER) with Some fs => map (fun f => (f_alias f, f_ty f)) fs | None => [] end)
-    = ["when"; "cfg_u"; "ann2"; "e"; "meta"; "td"] /\
+    = ["when"; "cfg_u"; "ann2"; "opt"; "e"; "meta"; "td"] /\
   exists d st, build (digest_tab ER) (mkcfg true "#/$defs") 3 true None (TList (TClass "Leafy")) [] = SOk (d, st)
                /\ meta_ok d = true /\ norm d = NOk d /\ refs d = ["#/$defs/Other"; "#/$defs/Leafy"] /\ keys st = ["Other"; "Leafy"].
 Proof.
@@ -251,13 +252,13 @@ Proof. exact covered_ok. Qed.
 Print Assumptions C20_override_covered.
 
 Definition EP : list (string * rcls) :=
-  [("Inv", mkrcls [] [("Pt", ORet (Some TInt)); ("int", ODeser)] [("int", ORet (Some TStr)); ("Pt", OPass)]
-      [mkrfld "p" None None (TOpaque "Pt") true RNone None None None;
-       mkrfld "ps" None None (TList (TUnion [TOpaque "Pt"; TNone])) true RFactory None None None;
-       mkrfld "n" None None (TDict TInt) true RNone None None None;
-       mkrfld "q" None None (TOpaque "Pt") true RNone None (Some (ORet None)) (Some (OBasic TStr));
-       mkrfld "r" None None TInt true RNone None (Some OPass) (Some (ORet (Some TBool)))]);
-   ("Bare", mkrcls [] [] [] [mkrfld "p" None None (TOpaque "Pt") true RNone None None None])].
+  [("Inv", mkrcls [] None None [("Pt", ORet (Some TInt)); ("int", ODeser)] [("int", ORet (Some TStr)); ("Pt", OPass)]
+      [mkrfld "p" None None (TOpaque "Pt") false true RNone None None None;
+       mkrfld "ps" None None (TList (TUnion [TOpaque "Pt"; TNone])) false true RFactory None None None;
+       mkrfld "n" None None (TDict TInt) false true RNone None None None;
+       mkrfld "q" None None (TOpaque "Pt") false true RNone None (Some (ORet None)) (Some (OBasic TStr));
+       mkrfld "r" None None TInt false true RNone None (Some OPass) (Some (ORet (Some TBool)))]);
+   ("Bare", mkrcls [] None None [] [] [mkrfld "p" None None (TOpaque "Pt") false true RNone None None None])].
 
 Example C20_override_nonvacuous :
   (match lookup "Inv" (digest_tab EP) with Some fs => map f_ty fs | None => [] end)
